@@ -342,9 +342,14 @@ class NextStepSettled(_L2):
         for t in (3, 5, 10):
             for consumer in ("event-based", "hybrid"):
                 yield {"native_case": {"initial_event_at": t, "until": 5, "consumer": consumer}}
+        for nxt in ([5, 1], [5, 0], [4, 2], [7, 0]):
+            yield {"native_case": {"queued_tiered_step": nxt, "until": 5}}
 
     def native_call(self, m):
         case = m.get("native_case")
+        if case and "queued_tiered_step" in case:
+            from contracts.scheduler_native import replay_settled_at_end
+            return replay_settled_at_end(case)
         if not case or "initial_event_at" not in case:
             return True, "symbolic counter-models of next_step_settled are not replayed (the native search is)"
         from contracts.scheduler_native import replay_event_beyond_until
@@ -364,7 +369,8 @@ class NextStepSettled(_L2):
             if isinstance(getattr(tasks, "length", None), int) else []
         for i, c in enumerate(tasks):
             if getattr(c, "kind", None) == "has_reached" and c.kw.get("shift") is None:
-                out[f"C05_awaited_progress_is_not_beyond_until#{i}"] = a.time(M.unT(c.kw["target"])) <= M.until
+                # (I4: progress <= U = TieredTime(until) + from_world_time, in the tiered order: until:1 is already beyond it)
+                out[f"C05_awaited_progress_is_not_beyond_until#{i}"] = a.le(M.unT(c.kw["target"]), SC.U(M, self._me))
         return out
 
     loops = {0: lambda c, index, v, A: TOP[0].loop_inv()}
